@@ -64,15 +64,16 @@ def make_targets(targets, keep_going=True):
     return rc == 0, out
 
 
-MODEL_FILES = ['Gen/Kernels.v', 'Gen/Tables.v', 'Model/Base.v', 'Model/Pauli.v', 'Model/Z2.v', 'Model/CMap.v',
-               'Model/Tableau.v', 'Model/Entropy.v', 'Model/Circuit.v', 'Model/Parse.v', 'Model/Diag.v',
-               'Model/Random.v', 'Model/Poly.v', 'Model/Dispatch.v', 'Extract.v']
+def model_files():
+    """everything the extracted driver is built from: all generated fragments, all model files, the extraction script"""
+    fs = sorted(glob.glob(os.path.join(COQ, 'Gen', '*.v')) + glob.glob(os.path.join(COQ, 'Model', '*.v')))
+    return [os.path.relpath(f, COQ) for f in fs] + ['Extract.v']
 
 
 def build_model():
     """Compile Model/ and rebuild the extracted driver when Gen/ or Model/ changed.
     Returns (driver_path or None, log)."""
-    files = [os.path.join(COQ, f) for f in MODEL_FILES if os.path.exists(os.path.join(COQ, f))]
+    files = [os.path.join(COQ, f) for f in model_files() if os.path.exists(os.path.join(COQ, f))]
     files.append(os.path.join(VERIF, 'ocaml', 'driver.ml'))
     h = file_hash(files)
     drv = os.path.join(BUILD, 'driver-' + h)
